@@ -175,13 +175,15 @@ int main(int argc, char** argv){
 #if RUNTIMEV != 2
                 RT.nthreads = 1 + (int)(lineNo % 2);
 #endif
-                TaskAlgoTsm<Real, Kern, Space> algo(R.conf, s.stop);
+                TaskAlgoTsm<Real, CKern, Space> algo(R.conf, s.stop);
                 RT.nthreads = sc.threads;
                 for(const Op& op : opsOf(s.hist)){ if(op.kind == 0) algo.execute(tree, op.arg);
                     else if(op.kind == 3){ if constexpr(Per){ TbfAlgorithmPeriodicTopTreeTsm<Real, Kern, BagT, BagT, Space> top(R.conf, s.above); top.execute(tree); } } }
                 { long nkt = 0; algo.applyToAllKernels([&](const auto&){ nkt++; }); rep.ok("WorkerKernelBound", key, nkt >= sc.threads, "fewer kernel copies than worker threads"); }
                 snapCells<true,false>(S, s.height, got); snapCells<false,true>(T, s.height, got); snapRhs(T, got);
                 for(int k = 0; k < 7; ++k) rep.eq("Counters", key, ctx<Dim>().counters[k], refCnt[k], "kernel call counts vs the sequential executor (operator " + std::to_string(k) + ")");
+                Replayer::getCounters(algo, cnt);
+                if(s.hist != 11 && s.hist != 12) for(int k = 0; k < 7; ++k) rep.eq("Counters", key, cnt[k], refCnt[k], "merged per-worker counters (target/source executor) vs the sequential kernel's count (operator " + std::to_string(k) + ")");
             }
 #if RUNTIMEV == 2
             rep.ok("RuntimeApi", key, mockstarpu::st().error.empty(), "StarPU API misuse: " + mockstarpu::st().error);
